@@ -189,7 +189,7 @@ def check_c18(prop, tier, seed):
             lines.append(dict(id=j + 1, kind="mutant", rule=rule, pos=pos, doc=doc, base=names[bid], fgroup=fgroup,
                               rgroup=rgroup))
             paths.append(p)
-            if rule in fmt.UNKNOWN_NAME_RULES:
+            if rule in fmt.UNKNOWN_NAME_RULES and "zz_unknown" in json.dumps(doc):
                 # the same document with the unknown name declared (valid), loaded first in the same process
                 pd = fmt.primer_of(doc)
                 primers.append(fmt.render_yaml(pd, os.path.join(wd, "p%d.yaml" % j)))
